@@ -53,7 +53,7 @@ def gen_plan(rng, i: int, tier: str) -> dict:
     adv = rng.choice((0, 1, B - 1, B, 32 * B, 1024 * B, rng.randrange(0, 3 * 1024 * B)))
     if adv:
         ops.append({"op": "clock", "advance_ticks": adv})
-    relayout = rng.random() < 0.4
+    relayout = rng.choice((False, False, False, True, "lib", "lib"))  # True = re-packed by the reference, "lib" = by DPAPINGBlob.pack(blob_in_envelope=False)
     blob = {"from_op": len(ops) - 1 - (1 if adv else 0), "relayout": relayout}
     if umode == "offline":
         if pmode != "offline":
@@ -105,6 +105,7 @@ def judge(plan, tr: P.Trace):
             continue
         ufl = ot.op["fl"]
         probes["relayout"] = probes.get("relayout", 0) + int(bool(ot.op["blob"].get("relayout")))
+        probes["relayout_by_library"] = probes.get("relayout_by_library", 0) + int(ot.op["blob"].get("relayout") == "lib")
         if ot.outcome.kind != "ok":
             et, frame = drive.exc_sig(ot.outcome)
             return common.violation("C01", "unprotect-failed", ufl + "-" + plan["umode"], et, frame, "",
@@ -128,7 +129,7 @@ class C01(common.Check):
     components = {"client": "real (public API both flavours, KeyCache, RPC client, codecs, crypto)", "DC": "model (RefDC, independent derivation)",
                   "clock / entropy / network": "simulated", "security context": "stub (StubCtx)", "cross-check": "ref.cms decrypts every emitted blob"}
     assumptions = ["client and DC share the simulated clock in C01 plans (skew is C17's subject)"]
-    required_fired = ("mode_pub", "mode_nonce", "pos_l2_31", "relayout", "roundtrip_ok", "pt_big")
+    required_fired = ("mode_pub", "mode_nonce", "pos_l2_31", "relayout", "relayout_by_library", "roundtrip_ok", "pt_big")
 
     def cases(self, tier, seed):
         rng = prng.stream(seed, "C01")
